@@ -203,3 +203,25 @@ def mg_unordered(case, ctx):
             "raw": project.raw_uri(uri), "temp_after": sorted(os.listdir(tmpd)), "two_pass": len(made) > 1,
             "assembly": str(c.info.get("genome-assembly", "MISSING")),
             "meta_tag": project.to_int(md.get("tag", 0)) if isinstance(md, dict) else -1}
+
+
+@driver("mg.fits")
+def mg_fits(case, ctx):
+    """create_cooler with a value column handed in as one integer dtype and stored as another (same width or not, signed or
+    not): either every value is stored exactly or the call fails - never something else."""
+    import cooler
+    d = ctx.subdir()
+    out = os.path.join(d, "o.cool")
+    table = gen.simple_table(3)
+    px = case["px"]
+    fr = gen.pixels_frame(px, ["count"], {"count": np.int64})
+    fr["count"] = fr["count"].astype(case["in_dtype"])
+    if case.get("form") == "dict":
+        fr = {k: fr[k].values for k in fr.columns}
+    try:
+        cooler.create_cooler(out, gen.bins_frame(table), fr, dtypes={"count": np.dtype(case["out_dtype"])}, ordered=True)
+    except Exception as ex:
+        return {"err": type(ex).__name__, "px": [], "sum": 0, "is_cooler": bool(os.path.exists(out) and cooler.fileops.is_cooler(out))}
+    c = cooler.Cooler(out)
+    return {"err": "", "px": project.pixel_rows(c.pixels()[:], ["bin1_id", "bin2_id", "count"]), "sum": project.to_int(c.info["sum"]),
+            "is_cooler": True}
